@@ -118,6 +118,30 @@ func (r *reducer) minimise(p *progen.Program, template bool, clause string) *pro
 	return red
 }
 
+// f5memo: parameter-minimal F5 configuration | mode | clause -> its statement-level minimal program
+// (per worker process; workers serve many shards).
+var f5memo = map[string]*progen.Program{}
+
+// shrinkCfg walks a failing F5 configuration down the family's parameter space while the same
+// clause still fails (first improving neighbour, deterministic order).
+func (r *reducer) shrinkCfg(c f5cfg, seed int64, template bool, clause string) f5cfg {
+	for steps := 0; steps < 500; steps++ {
+		moved := false
+		for _, n := range c.Shrink() {
+			p := n.Build()
+			progen.Concretise(p, seed)
+			if r.clause(p, template) == clause {
+				c, moved = n, true
+				break
+			}
+		}
+		if !moved {
+			break
+		}
+	}
+	return c
+}
+
 // keyOf: the violated clause plus the control-flow signature of the minimal program (see
 // progen.Signature) -- coarse enough that the many 1-minimal programs of one defect share a key,
 // fine enough that a defect in another construct gets another key. The minimal program itself
@@ -206,7 +230,7 @@ func progWorker(w *pool.W, arg json.RawMessage) {
 	fails := map[string]*failRec{}
 	sampled := false
 
-	one := func(it progen.Item, modes []bool) {
+	one := func(it progen.Item, modes []bool, cfg *f5cfg) {
 		if sh.Deadline > 0 && skipped == 0 && cases[it.Family]%64 == 0 && time.Now().Unix() > sh.Deadline {
 			skipped = 1
 		} else if skipped > 0 {
@@ -242,7 +266,21 @@ func progWorker(w *pool.W, arg json.RawMessage) {
 				}
 				continue
 			}
-			min := red.minimise(it.P, tmpl, v.Clause)
+			var min *progen.Program
+			if cfg != nil {
+				// F5: walk down the family's own parameter space first; the statement-level reduction
+				// of each parameter-minimal program is done once per worker process
+				mc := red.shrinkCfg(*cfg, b.Seed, tmpl, v.Clause)
+				mk := fmt.Sprintf("%s|%v|%s", mc.ID(), tmpl, v.Clause)
+				if min = f5memo[mk]; min == nil {
+					mp := mc.Build()
+					progen.Concretise(mp, b.Seed)
+					min = red.minimise(mp, tmpl, v.Clause)
+					f5memo[mk] = min
+				}
+			} else {
+				min = red.minimise(it.P, tmpl, v.Clause)
+			}
 			// a template-mode failure whose minimal program also fails in plain mode is the same finding
 			tonly := false
 			if tmpl && red.clause(min, false) != v.Clause {
@@ -276,7 +314,7 @@ func progWorker(w *pool.W, arg json.RawMessage) {
 				return false
 			}
 			if idx%sh.M == sh.I {
-				one(it, []bool{false, true})
+				one(it, []bool{false, true}, nil)
 			}
 			idx++
 			return true
@@ -287,20 +325,20 @@ func progWorker(w *pool.W, arg json.RawMessage) {
 			modes = []bool{false, true}
 		}
 		progen.F4Range(b, sh.From, sh.To, func(it progen.Item) bool {
-			one(it, modes)
+			one(it, modes, nil)
 			return true
 		})
 	case "f5":
 		idx := 0
 		F5(f5Bounds(sh.Tier), func(fi f5Item) bool {
 			if idx%sh.M == sh.I {
-				p := fi.Build()
+				p := fi.Cfg.Build()
 				progen.Concretise(p, b.Seed)
 				modes := []bool{false}
 				if fi.Template {
 					modes = []bool{false, true}
 				}
-				one(progen.Item{ID: fi.ID, Family: "F5", P: p}, modes)
+				one(progen.Item{ID: fi.Cfg.ID(), Family: "F5", P: p}, modes, &fi.Cfg)
 			}
 			idx++
 			return true
